@@ -54,7 +54,7 @@ func traceOf(c core.Case, out []string) (core.Case, bool) {
 }
 
 func traceExtra(ctx *core.Ctx) (int, string, []core.ExtraFailure) {
-	n := 60
+	n := 40
 	if ctx.Tier == "thorough" {
 		n = 1000
 	}
